@@ -134,6 +134,65 @@ pub mod iter {
             let jobs: Vec<Thunk<'_, ()>> = self.into_multi().jobs.into_iter().map(|j| { let mut st=init.clone(); Box::new(move || { for x in j() { f(&mut st, x) } }) as Thunk<'_, ()> }).collect();
             run_all(jobs);
         }
+        /// rayon's `skip_any_while`: items are visited in *schedule* order; those for which the predicate
+        /// holds are dropped until the first visited item fails it (NOT a parallel `skip_while`)
+        fn skip_any_while<P>(self, p: P) -> ParMulti<'a, Self::Item> where P: Fn(&Self::Item) -> bool + 'a {
+            let jobs = self.into_multi().jobs; let n=jobs.len(); let order=sim::perm(n);
+            let mut jobs: Vec<Option<Thunk<'a, Vec<Self::Item>>>> = jobs.into_iter().map(Some).collect();
+            let mut kept: Vec<Vec<Self::Item>> = (0..n).map(|_| Vec::new()).collect();
+            let mut done = false;
+            for i in order { for x in (jobs[i].take().unwrap())() { if !done && p(&x) { continue; } done = true; kept[i].push(x); } }
+            ParMulti { jobs: kept.into_iter().map(|v| Box::new(move || v) as Thunk<'a, Vec<Self::Item>>).collect() }
+        }
+        /// rayon's `take_any_while`: items are visited in schedule order and kept until the first visited item fails the predicate
+        fn take_any_while<P>(self, p: P) -> ParMulti<'a, Self::Item> where P: Fn(&Self::Item) -> bool + 'a {
+            let jobs = self.into_multi().jobs; let n=jobs.len(); let order=sim::perm(n);
+            let mut jobs: Vec<Option<Thunk<'a, Vec<Self::Item>>>> = jobs.into_iter().map(Some).collect();
+            let mut kept: Vec<Vec<Self::Item>> = (0..n).map(|_| Vec::new()).collect();
+            let mut done = false;
+            for i in order { for x in (jobs[i].take().unwrap())() { if done || !p(&x) { done = true; continue; } kept[i].push(x); } }
+            ParMulti { jobs: kept.into_iter().map(|v| Box::new(move || v) as Thunk<'a, Vec<Self::Item>>).collect() }
+        }
+        fn take_any(self, k: usize) -> ParMulti<'a, Self::Item> {
+            let jobs = self.into_multi().jobs; let n=jobs.len(); let order=sim::perm(n);
+            let mut jobs: Vec<Option<Thunk<'a, Vec<Self::Item>>>> = jobs.into_iter().map(Some).collect();
+            let mut kept: Vec<Vec<Self::Item>> = (0..n).map(|_| Vec::new()).collect();
+            let mut c = 0;
+            for i in order { for x in (jobs[i].take().unwrap())() { if c < k { kept[i].push(x); c += 1; } } }
+            ParMulti { jobs: kept.into_iter().map(|v| Box::new(move || v) as Thunk<'a, Vec<Self::Item>>).collect() }
+        }
+        fn skip_any(self, k: usize) -> ParMulti<'a, Self::Item> {
+            let jobs = self.into_multi().jobs; let n=jobs.len(); let order=sim::perm(n);
+            let mut jobs: Vec<Option<Thunk<'a, Vec<Self::Item>>>> = jobs.into_iter().map(Some).collect();
+            let mut kept: Vec<Vec<Self::Item>> = (0..n).map(|_| Vec::new()).collect();
+            let mut c = 0;
+            for i in order { for x in (jobs[i].take().unwrap())() { if c < k { c += 1; } else { kept[i].push(x); } } }
+            ParMulti { jobs: kept.into_iter().map(|v| Box::new(move || v) as Thunk<'a, Vec<Self::Item>>).collect() }
+        }
+        fn while_some<T: 'a>(self) -> ParMulti<'a, T> where Self: ParallelIterator<'a, Item = Option<T>> {
+            let jobs = self.into_multi().jobs; let n=jobs.len(); let order=sim::perm(n);
+            let mut jobs: Vec<Option<Thunk<'a, Vec<Option<T>>>>> = jobs.into_iter().map(Some).collect();
+            let mut kept: Vec<Vec<T>> = (0..n).map(|_| Vec::new()).collect();
+            let mut done = false;
+            for i in order { for x in (jobs[i].take().unwrap())() { match x { Some(v) if !done => kept[i].push(v), _ => done = true } } }
+            ParMulti { jobs: kept.into_iter().map(|v| Box::new(move || v) as Thunk<'a, Vec<T>>).collect() }
+        }
+        fn panic_fuse(self) -> ParMulti<'a, Self::Item> { self.into_multi() }
+        fn map_init<INIT, T: 'a, F, R: 'a>(self, init: INIT, f: F) -> ParMulti<'a, R> where INIT: Fn() -> T + 'a, F: Fn(&mut T, Self::Item) -> R + 'a {
+            let f = std::rc::Rc::new(f); let init = std::rc::Rc::new(init);
+            ParMulti { jobs: self.into_multi().jobs.into_iter().map(|j| { let f=f.clone(); let init=init.clone(); Box::new(move || { let mut st = init(); j().into_iter().map(|x| f(&mut st, x)).collect() }) as Thunk<'a, Vec<R>> }).collect() }
+        }
+        fn for_each_init<INIT, T, F>(self, init: INIT, f: F) where INIT: Fn() -> T + 'a, F: Fn(&mut T, Self::Item) + 'a {
+            let (f, init) = (&f, &init);
+            let jobs: Vec<Thunk<'_, ()>> = self.into_multi().jobs.into_iter().map(|j| Box::new(move || { let mut st = init(); for x in j() { f(&mut st, x) } }) as Thunk<'_, ()>).collect();
+            run_all(jobs);
+        }
+        fn try_for_each_with<T: Clone + 'a, F, E>(self, init: T, f: F) -> Result<(), E> where F: Fn(&mut T, Self::Item) -> Result<(), E> + 'a {
+            let jobs = self.into_multi().jobs; let n=jobs.len(); let order=sim::perm(n);
+            let mut jobs: Vec<Option<Thunk<'a, Vec<Self::Item>>>> = jobs.into_iter().map(Some).collect();
+            for i in order { let mut st = init.clone(); for x in (jobs[i].take().unwrap())() { f(&mut st, x)?; } }
+            Ok(())
+        }
         /// some element satisfying the predicate: the first one in *schedule* order
         fn find_any<P>(self, p: P) -> Option<Self::Item> where P: Fn(&Self::Item) -> bool + 'a {
             let jobs = self.into_multi().jobs; let n=jobs.len(); let order=sim::perm(n);
